@@ -65,13 +65,14 @@ Proof.
     assert (H0 : D (set_queue s (remove_nth k (queue s)))) by dflags.
     set (s0 := set_queue s (remove_nth k (queue s))) in *.
     destruct t; cbn [run_task].
-    + destruct o; [|exact H0]. pose proof (D_connect s0 during H0) as H1.
+    + destruct o; [|exact H0]. destruct (negb (h <? nh s0)); [exact H0|].
+      pose proof (D_connect s0 during H0) as H1.
       destruct (connect s0 during) as [s1 c]; simpl in *. destruct (sess_down s1); [dflags|].
       destruct (pool_conn (pool s1 h)); simpl; dflags.
     + destruct (pool s0 h) as [[[c0'|] [|]]|]; try exact H0. destruct (c0' =? c0); [|exact H0].
       destruct o.
       * pose proof (D_connect s0 during H0) as H1. destruct (connect s0 during) as [s1 c]; simpl in *.
-        destruct (pool s1 h) as [[? [|]]|]; simpl; dflags.
+        destruct (pool s1 h) as [[[?|] [|]]|]; simpl; dflags.
       * destruct (sess_down s0); dflags.
     + destruct o.
       * pose proof (D_connect s0 during H0) as H1. destruct (connect s0 during) as [s1 c]; simpl in *.
@@ -119,13 +120,14 @@ Proof.
     { intros d. apply connect_after_shutdown. exact Hc. }
     destruct t; cbn [run_task].
     + destruct o; [|repeat split; auto; discriminate].
+      destruct (negb (h <? nh s0)); [repeat split; auto; discriminate|].
       pose proof (Hconn during) as E. destruct (connect s0 during) as [s1 c]; simpl in E; subst s1. simpl. rewrite Hs.
       simpl. repeat split; auto; discriminate.
     + destruct (pool s0 h) as [[[c0'|] [|]]|]; try (repeat split; auto; discriminate).
       destruct (c0' =? c0); [|repeat split; auto; discriminate].
       destruct o.
       * pose proof (Hconn during) as E. destruct (connect s0 during) as [s1 c]; simpl in E; subst s1. simpl.
-        destruct (pool s h) as [[? [|]]|]; simpl; repeat split; auto; discriminate.
+        destruct (pool s h) as [[[?|] [|]]|]; simpl; repeat split; auto; discriminate.
       * simpl. rewrite Hs. repeat split; auto; discriminate.
     + destruct o.
       * pose proof (Hconn during) as E. destruct (connect s0 during) as [s1 c]; simpl in E; subst s1. simpl. rewrite Hcc.
@@ -135,3 +137,258 @@ Proof.
   - left. unfold session_shutdown. rewrite Hs. repeat split; auto; discriminate.
 Qed.
 
+
+(* ---------------------------------------------------------------- KK: every opened connection is closed or has a holder *)
+Transparent connect.
+
+Definition held (s : st) (c : nat) : Prop :=
+  In c (closed s) \/ cc_conn s = Some c \/ exists h, pool_conn (pool s h) = Some c.
+
+Definition KKn (s : st) (n : nat) : Prop :=
+  (forall c, c < n -> held s c) /\
+  (cc_down s = true -> cc_conn s = None) /\
+  (sess_down s = true -> forall h, pool_conn (pool s h) = None) /\
+  (forall h, nh s <= h -> pool s h = None).
+
+Definition KK (s : st) : Prop := KKn s (nconn s).
+
+Lemma KKn_frame s s' n :
+  closed s' = closed s -> cc_conn s' = cc_conn s -> pool s' = pool s -> cc_down s' = cc_down s ->
+  sess_down s' = sess_down s -> nh s' = nh s -> KKn s n -> KKn s' n.
+Proof.
+  intros E1 E2 E3 E4 E5 E6 (A & B & C & D0). unfold KKn, held. rewrite E1, E2, E3, E4, E5, E6. auto.
+Qed.
+
+Ltac kframe := first [ assumption
+  | match goal with HH : KKn ?x ?n |- KKn _ ?n => solve [apply (KKn_frame x); [reflexivity ..| exact HH]] end ].
+
+Lemma KKn_close s n c : KKn s n -> KKn (close s c) n.
+Proof.
+  intros (A & B & C & D0). split; [|auto]. intros x Hx. destruct (A x Hx) as [H | [H | H]].
+  - left. simpl. auto. - right; left; auto. - right; right; auto.
+Qed.
+
+Lemma KKn_close_new s n : KKn s n -> KKn (close s n) (S n).
+Proof.
+  intros H. pose proof (KKn_close s n n H) as (A & B & C & D0). split; [|auto].
+  intros x Hx. assert (x < n \/ x = n) as [Hl | ->] by lia; auto. left. simpl. auto.
+Qed.
+
+Lemma KKn_close_opt s n o : KKn s n -> KKn (close_opt s o) n.
+Proof. destruct o; simpl; auto using KKn_close. Qed.
+
+Lemma KKn_session_shutdown s n : KKn s n -> KKn (session_shutdown s) n.
+Proof.
+  intros (A & B & C & D0). unfold session_shutdown. destruct (sess_down s) eqn:Es; [repeat split; auto|].
+  split; [|split; [|split]]; simpl; auto.
+  - intros x Hx. destruct (A x Hx) as [H | [H | [h H]]].
+    + left. simpl. apply in_or_app; auto.
+    + right; left; auto.
+    + left. simpl. apply in_or_app. left. apply in_flat_map. exists h. split.
+      * apply in_seq. split; [lia|]. simpl. destruct (Nat.lt_ge_cases h (nh s)) as [|Hge]; auto.
+        rewrite (D0 h Hge) in H. discriminate.
+      * rewrite H. simpl; auto.
+  - intros _ h. destruct (pool s h) as [[? ?]|]; reflexivity.
+  - intros h Hh. rewrite (D0 h Hh). reflexivity.
+Qed.
+
+Lemma KKn_cc_shutdown s n : KKn s n -> KKn (cc_shutdown s) n.
+Proof.
+  intros (A & B & C & D0). unfold cc_shutdown. simpl.
+  destruct (cc_down s) eqn:Ec.
+  - split; [|split; [|split]]; simpl; auto.
+  - destruct (cc_conn s) as [c0|] eqn:E0; simpl; (split; [|split; [|split]]); simpl; auto.
+    + intros x Hx. destruct (A x Hx) as [H1 | [H1 | H1]].
+      * left; simpl; auto.
+      * left; simpl. left. congruence.
+      * right; right; auto.
+    + intros x Hx. destruct (A x Hx) as [H1 | [H1 | H1]].
+      * left; auto.
+      * congruence.
+      * right; right; auto.
+Qed.
+
+Lemma KKn_cluster_shutdown s n : KKn s n -> KKn (cluster_shutdown s) n.
+Proof.
+  intros H. unfold cluster_shutdown. destruct (cl_down s); auto.
+  apply KKn_session_shutdown. apply KKn_cc_shutdown. kframe.
+Qed.
+
+Lemma nh_session_shutdown s : nh (session_shutdown s) = nh s.
+Proof. unfold session_shutdown. destruct (sess_down s); reflexivity. Qed.
+Lemma nh_cc_shutdown s : nh (cc_shutdown s) = nh s.
+Proof. unfold cc_shutdown. simpl. destruct (cc_down s); simpl; auto. destruct (cc_conn s); reflexivity. Qed.
+Lemma nh_cluster_shutdown s : nh (cluster_shutdown s) = nh s.
+Proof. unfold cluster_shutdown. destruct (cl_down s); auto. rewrite nh_session_shutdown, nh_cc_shutdown. reflexivity. Qed.
+
+Lemma nconn_session_shutdown s : nconn (session_shutdown s) = nconn s.
+Proof. unfold session_shutdown. destruct (sess_down s); reflexivity. Qed.
+Lemma nconn_cc_shutdown s : nconn (cc_shutdown s) = nconn s.
+Proof. unfold cc_shutdown. simpl. destruct (cc_down s); simpl; auto. destruct (cc_conn s); reflexivity. Qed.
+Lemma nconn_cluster_shutdown s : nconn (cluster_shutdown s) = nconn s.
+Proof. unfold cluster_shutdown. destruct (cl_down s); auto. rewrite nconn_session_shutdown, nconn_cc_shutdown. reflexivity. Qed.
+
+Lemma connect_spec s d s1 c : KK s -> connect s d = (s1, c) ->
+  KKn s1 (nconn s) /\ c = nconn s /\ nconn s1 = S (nconn s) /\ nh s1 = nh s.
+Proof.
+  intros H E. unfold connect in E. inversion E; subst; clear E.
+  assert (H0 : KKn (set_nconn s (S (nconn s))) (nconn s)) by (unfold KK in H; kframe).
+  destruct d.
+  - split; [apply KKn_cluster_shutdown; auto|]. split; auto. rewrite nconn_cluster_shutdown, nh_cluster_shutdown. auto.
+  - auto.
+Qed.
+
+(* installing the new connection c = n in the pool of host h, closing the one it replaces *)
+Lemma KKn_install_pool s n h : KKn s n -> sess_down s = false -> h < nh s ->
+  KKn (close_opt (upd_pool s h (Some (Some n, false))) (pool_conn (pool s h))) (S n).
+Proof.
+  intros (A & B & C & D0) Hs Hh.
+  assert (Hcl : forall x, In x (closed s) -> In x (closed (close_opt (upd_pool s h (Some (Some n, false))) (pool_conn (pool s h))))).
+  { intros x Hx. destruct (pool_conn (pool s h)); simpl; auto. }
+  assert (Hcc : cc_conn (close_opt (upd_pool s h (Some (Some n, false))) (pool_conn (pool s h))) = cc_conn s)
+    by (destruct (pool_conn (pool s h)); reflexivity).
+  assert (Hpool : pool (close_opt (upd_pool s h (Some (Some n, false))) (pool_conn (pool s h))) =
+                  fun x => if x =? h then Some (Some n, false) else pool s x)
+    by (destruct (pool_conn (pool s h)); reflexivity).
+  split; [|split; [|split]].
+  - intros x Hx. assert (x < n \/ x = n) as [Hl | ->] by lia.
+    + destruct (A x Hl) as [H | [H | [h' H]]].
+      * left; auto.
+      * right; left. rewrite Hcc; auto.
+      * destruct (h' =? h) eqn:E.
+        -- apply Nat.eqb_eq in E; subst h'. left. rewrite H. simpl. auto.
+        -- right; right. exists h'. rewrite Hpool. rewrite E. auto.
+    + right; right. exists h. rewrite Hpool. rewrite Nat.eqb_refl. reflexivity.
+  - rewrite Hcc. destruct (pool_conn (pool s h)); simpl; auto.
+  - intros Hd. exfalso. destruct (pool_conn (pool s h)); simpl in Hd; congruence.
+  - intros x Hx. rewrite Hpool. destruct (x =? h) eqn:E.
+    + apply Nat.eqb_eq in E; subst. destruct (pool_conn (pool s h)); simpl in Hx; lia.
+    + destruct (pool_conn (pool s h)); simpl in Hx; auto.
+Qed.
+
+(* _set_new_connection(c) with c = n *)
+Lemma KKn_install_cc s n : KKn s n -> cc_down s = false ->
+  KKn (set_cc (close_opt s (cc_conn s)) (Some n)) (S n).
+Proof.
+  intros (A & B & C & D0) Hd.
+  split; [|split; [|split]].
+  - intros x Hx. assert (x < n \/ x = n) as [Hl | ->] by lia.
+    + destruct (A x Hl) as [H | [H | [h' H]]].
+      * left. destruct (cc_conn s); simpl; auto.
+      * left. rewrite H. simpl. auto.
+      * right; right. exists h'. destruct (cc_conn s); simpl; auto.
+    + right; left. reflexivity.
+  - intros Hx. exfalso. destruct (cc_conn s); simpl in Hx; congruence.
+  - destruct (cc_conn s); simpl; auto.
+  - destruct (cc_conn s); simpl; auto.
+Qed.
+
+Opaque connect.
+
+Lemma KK_of s n : nconn s = n -> KKn s n -> KK s.
+Proof. intros <-. auto. Qed.
+
+Lemma KK_frame s s' : nconn s' = nconn s ->
+  closed s' = closed s -> cc_conn s' = cc_conn s -> pool s' = pool s -> cc_down s' = cc_down s ->
+  sess_down s' = sess_down s -> nh s' = nh s -> KK s -> KK s'.
+Proof. intros E0 E1 E2 E3 E4 E5 E6 H. unfold KK in *. rewrite E0. eapply KKn_frame; eauto. Qed.
+
+Ltac kkframe := first [ assumption
+  | match goal with HH : KK ?x |- KK _ => solve [apply (KK_frame x); [reflexivity ..| exact HH]] end ].
+
+Lemma nconn_close_opt s o : nconn (close_opt s o) = nconn s.
+Proof. destruct o; reflexivity. Qed.
+
+Lemma KK_step s o : KK s -> KK (fst (step s o)).
+Proof.
+  intros H. destruct o; simpl.
+  - destruct (sess_down s); simpl; kkframe.
+  - destruct (pool_conn (pool s h)); simpl.
+    + destruct (sess_down s); simpl; kkframe.
+    + kkframe.
+  - destruct (cc_down s || cl_down s); simpl; kkframe.
+  - destruct (sched_down s); simpl; kkframe.
+  - destruct (nth_error (queue s) k) as [t|]; simpl; [|kkframe].
+    assert (H0 : KK (set_queue s (remove_nth k (queue s)))) by kkframe.
+    set (s0 := set_queue s (remove_nth k (queue s))) in *.
+    destruct t; cbn [run_task].
+    + destruct o; [|exact H0]. destruct (negb (h <? nh s0)) eqn:Eh; [exact H0|].
+      apply negb_false_iff, Nat.ltb_lt in Eh.
+      destruct (connect s0 during) as [s1 c] eqn:Ec.
+      destruct (connect_spec _ _ _ _ H0 Ec) as (H1 & -> & Hn & Hh).
+      destruct (sess_down s1) eqn:Es.
+      * apply (KK_of _ (S (nconn s0))); [exact Hn | apply KKn_close_new; exact H1].
+      * apply (KK_of _ (S (nconn s0))); [rewrite nconn_close_opt; exact Hn |].
+        apply KKn_install_pool; auto. rewrite Hh; exact Eh.
+    + destruct (pool s0 h) as [[[c0'|] [|]]|]; try exact H0. destruct (c0' =? c0); [|exact H0].
+      destruct o.
+      * destruct (connect s0 during) as [s1 c] eqn:Ec.
+        destruct (connect_spec _ _ _ _ H0 Ec) as (H1 & -> & Hn & Hh).
+        destruct (pool s1 h) as [[[x|] [|]]|] eqn:Ep;
+          try (apply (KK_of _ (S (nconn s0))); [exact Hn | apply KKn_close_new; exact H1]).
+        apply (KK_of _ (S (nconn s0))).
+        -- rewrite <- Ep. rewrite nconn_close_opt. exact Hn.
+        -- rewrite <- Ep. destruct H1 as (A & B & C & D0).
+           apply KKn_install_pool; [repeat split; auto | |].
+           ++ destruct (sess_down s1) eqn:Es; auto. specialize (C eq_refl h). rewrite Ep in C. discriminate.
+           ++ destruct (Nat.lt_ge_cases h (nh s1)) as [|Hge]; auto. rewrite (D0 h Hge) in Ep. discriminate.
+      * destruct (sess_down s0); kkframe.
+    + destruct o.
+      * destruct (connect s0 during) as [s1 c] eqn:Ec.
+        destruct (connect_spec _ _ _ _ H0 Ec) as (H1 & -> & Hn & Hh).
+        destruct (cc_down s1) eqn:Ed.
+        -- apply (KK_of _ (S (nconn s0))); [exact Hn | apply KKn_close_new; exact H1].
+        -- apply (KK_of _ (S (nconn s0))); [simpl; rewrite nconn_close_opt; exact Hn | apply KKn_install_cc; auto].
+      * destruct (cc_down s0); [exact H0|]. destruct (sched_down s0); kkframe.
+  - destruct (sched_down s) eqn:Es; simpl; [kkframe|].
+    destruct (nth_error (timers s) k) as [t|]; simpl; [|kkframe].
+    assert (H0 : KK (set_timers s (remove_nth k (timers s)))) by kkframe.
+    set (s0 := set_timers s (remove_nth k (timers s))) in *.
+    destruct t; cbn [fire].
+    + destruct live; cbn [negb]; [|exact H0]. destruct o.
+      * destruct (connect s0 during) as [s1 c] eqn:Ec.
+        destruct (connect_spec _ _ _ _ H0 Ec) as (H1 & -> & Hn & Hh).
+        apply (KK_of _ (S (nconn s0))); [exact Hn | apply KKn_close_new; exact H1].
+      * destruct (sched_down s0); kkframe.
+    + destruct live; cbn [negb]; [|exact H0]. destruct o.
+      * destruct (connect s0 during) as [s1 c] eqn:Ec.
+        destruct (connect_spec _ _ _ _ H0 Ec) as (H1 & -> & Hn & Hh).
+        destruct (cc_down s1) eqn:Ed.
+        -- apply (KK_of _ (S (nconn s0))); [exact Hn | apply KKn_close_new; exact H1].
+        -- apply (KK_of _ (S (nconn s0))); [simpl; rewrite nconn_close_opt; exact Hn |].
+           apply KKn_close. apply KKn_install_cc; auto.
+      * destruct (sched_down s0); kkframe.
+  - apply (KK_of _ (nconn s)); [apply nconn_cluster_shutdown | apply KKn_cluster_shutdown; exact H].
+  - apply (KK_of _ (nconn s)); [apply nconn_session_shutdown | apply KKn_session_shutdown; exact H].
+  - exact H.
+  - exact H.
+Qed.
+
+Lemma KK_run os : forall s, KK s -> KK (run s os).
+Proof. induction os; simpl; intros s H; auto. apply IHos. apply KK_step; auto. Qed.
+
+Lemma KK_init n : KK (init n).
+Proof.
+  unfold KK, KKn, held, init; simpl. split; [|split; [|split]]; try discriminate.
+  - intros c Hc. destruct c.
+    + right; left; auto.
+    + right; right. exists c. destruct (c <? n) eqn:E; auto. apply Nat.ltb_ge in E. lia.
+  - intros h Hh. destruct (h <? n) eqn:E; auto. apply Nat.ltb_lt in E. lia.
+Qed.
+
+(* everything shut down => every opened connection is closed *)
+Lemma all_closed_when_down s : KK s -> sess_down s = true -> cc_down s = true ->
+  forall c, c < nconn s -> In c (closed s).
+Proof.
+  intros (A & B & C & D0) Hs Hc c Hlt. destruct (A c Hlt) as [H | [H | [h H]]]; auto.
+  - rewrite (B Hc) in H. discriminate.
+  - rewrite (C Hs h) in H. discriminate.
+Qed.
+
+(* after Session.shutdown alone: the only connection that may be open is the control connection's *)
+Lemma session_closed_when_down s : KK s -> sess_down s = true ->
+  forall c, c < nconn s -> In c (closed s) \/ cc_conn s = Some c.
+Proof.
+  intros (A & B & C & D0) Hs c Hlt. destruct (A c Hlt) as [H | [H | [h H]]]; auto.
+  rewrite (C Hs h) in H. discriminate.
+Qed.
